@@ -66,6 +66,8 @@ def gen_hist_case(rng, algs=("DE", "NSDE", "GDE3", "GDE3MNN", "GDE32NN", "GDE3P"
         cfg.pop("fscale", None); cfg.pop("gscale", None)
         if rng.random() < 0.4:
             cfg["sel"] = "ranked"
+    if isinstance(cfg["F"], tuple) and rng.random() < 0.4:
+        cfg["F_array"] = True
     if alg in ("GA", "EA"):
         cfg["n_off"] = rng.choice([ps, max(2, ps // 2), 3])
         cfg["n_init"] = rng.choice([ps, ps, max(4, ps - 3), max(4, ps // 2)])
@@ -78,11 +80,17 @@ def make_problem(cfg):
                        cfg.get("fscale", 1.0), cfg.get("gscale", 1.0))
 
 
+_SHARED_F = {}
+
+
 def make_algorithm(cfg):
     from pymoode.algorithms import DE, GDE3, NSDE, NSDER, GDE3MNN, GDE32NN, GDE3P
     from pymoode.survival import RankAndCrowding, ConstrRankAndCrowding
     from pymoo.util.ref_dirs import get_reference_directions
     F = tuple(cfg["F"]) if isinstance(cfg["F"], list) else cfg["F"]
+    if cfg.get("F_array") and isinstance(F, tuple):
+        # the user keeps the range in one float array and passes that same object to every algorithm they construct
+        F = _SHARED_F.setdefault(F, np.array(F, dtype=float))
     kw = dict(pop_size=cfg["pop_size"], variant="DE/%s/%d/%s" % (cfg["sel"], cfg["y"], cfg["cx"]), CR=float.fromhex(cfg["CR"]), F=F, gamma=cfg["gamma"])
     a = cfg["alg"]
     if a in ("GA", "EA"):
